@@ -19,6 +19,8 @@ Proof.
   destruct (write_all write_sq (h_sq h)) as [lb|] eqn:EB; [|discriminate].
   destruct (write_all (write_idmap 82 71) (h_rg h)) as [lc|] eqn:EC; [|discriminate].
   destruct (write_all (write_idmap 80 71) (h_pg h)) as [ld|] eqn:ED; [|discriminate].
+  destruct (write_all write_co_chk (h_co h)) as [le|] eqn:EE; [|discriminate].
+  destruct (write_co_chk_all _ _ EE) as [EE' _]. subst le.
   apply Some_inj in H. subst ls.
   assert (LA : Forall line_ok la).
   { destruct (h_hd h) as [m|].
